@@ -127,6 +127,19 @@ def predict(res, out, pdf, xiF=1.0, a_s=0.2):
     return res.apply_pdf(pdf, out["pids"], out["xgrid"]["grid"], lambda mu: a_s, lambda mu: 0.0, 1.0, xiF)["result"]
 
 
+def predict_scale(res, out, pdf, xiF=1.0, a_s=0.2):
+    """sum of the absolute values of everything `predict` adds up (cancellation-aware scale: a
+    prediction that is a small difference of large flavour contributions, e.g. xF3 at small x, is
+    compared relative to the size of those contributions)"""
+    grid = out["xgrid"]["grid"]
+    f = np.array([[abs(pdf.xfxQ2(int(p), float(x), res.Q2 * xiF**2) / x) if pdf.hasFlavor(int(p)) else 0.0 for x in grid] for p in out["pids"]])
+    tot = 0.0
+    for o, (v, _e) in res.orders.items():
+        lnF = 1.0 if o[3] == 0 else abs(math.log((1 / xiF) ** 2)) ** o[3]
+        tot += (a_s / (4 * math.pi)) ** o[0] * lnF * float(np.sum(np.abs(np.asarray(v)) * f)) if o[2] == 0 else 0.0
+    return tot
+
+
 def search_two_grids(chk, r, n, thorough):
     """for PDFs in the common span two different grids / degrees give the same prediction (quadrature accuracy)"""
     import yadism
@@ -170,7 +183,7 @@ def search_two_grids(chk, r, n, thorough):
             continue
         for j, x in enumerate(xs):
             a, b = predict(oA[name][j], oA, pdf), predict(oB[name][j], oB, pdf)
-            rel = abs(a - b) / max(abs(a), abs(b), 1e-300)
+            rel = abs(a - b) / max(predict_scale(oA[name][j], oA, pdf), 1e-300)
             d = dict(obs=name, process=proc, PTO=pto, x=x, Q2=Q2, log=log, degreeA=dA, degreeB=dB, NA=NA, NB=len(gB), predictionA=a, predictionB=b, rel=rel, where=["generic", "nodeA", "near-nodeA", "near-nodeB", "top", "bottom"][j], gridA=gA, gridB=gB)
             chk.search_case("two_grids_agree_in_span", rel <= 2e-7, what=f"{name} {proc} PTO={pto} x={x!r} ({d['where']}) log={log} degrees {dA}/{dB} N {NA}/{len(gB)}: predictions for a PDF in the common span differ by {rel:.2e} ({a} vs {b})", data=d, sample={k: v for k, v in d.items() if not k.startswith("grid")} if j == 2 else None, nontrivial=abs(a) > 0)
 
@@ -212,13 +225,14 @@ def search_scale_variation(chk, r, n):
             for xiF in (2.0, 0.5):
                 m_val = predict(oM[name][j], oM, pdf, xiF=xiF)
                 f_val = predict(oF[name][j], oF, pdf, xiF=xiF)
-                relm = abs(m_val - f_val) / max(abs(m_val), abs(f_val), 1e-300)
+                relm = abs(m_val - f_val) / max(predict_scale(oF[name][j], oF, pdf, xiF=xiF), 1e-300)
                 dm = dict(obs=name, degree=deg, x=x, xiF=xiF, refined=f_val, same_size_other_nodes=m_val, rel=relm)
                 chk.search_case("scale_variation_two_grids", relm <= 1e-6, what=f"{name} degree={deg} x={x:.5g} xiF={xiF}: refined grid {f_val} vs a grid of the same size with other nodes {m_val} (rel {relm:.2e})", data=dm, nontrivial=abs(f_val) > 0)
         for j, x in enumerate(xs):
             for xiF in (2.0, 0.5):
                 a, b = predict(oC[name][j], oC, pdf, xiF=xiF), predict(oF[name][j], oF, pdf, xiF=xiF)
-                rel = abs(a - b) / max(abs(a), abs(b), 1e-300)
+                sc_ = max(predict_scale(oF[name][j], oF, pdf, xiF=xiF), 1e-300)
+                rel = abs(a - b) / sc_
                 # order by order as well
                 worst = 0.0
                 for o in oF[name][j].orders:
@@ -226,7 +240,7 @@ def search_scale_variation(chk, r, n):
                     fF = np.array([[pdf.f(int(p), xx) if pdf.hasFlavor(int(p)) else 0.0 for xx in oF["xgrid"]["grid"]] for p in oF["pids"]])
                     vc = float(np.sum(np.asarray(oC[name][j].orders[o][0]) * fC)) if o in oC[name][j].orders else 0.0
                     vf = float(np.sum(np.asarray(oF[name][j].orders[o][0]) * fF))
-                    worst = max(worst, abs(vc - vf) / max(abs(a), 1e-300))
+                    worst = max(worst, abs(vc - vf) * (0.2 / (4 * math.pi)) ** o[0] / sc_)
                 d = dict(obs=name, degree=deg, x=x, position=["second-to-last node", "third-to-last node", "central node", "low node"][j], xiF=xiF, coarse=a, fine=b, rel=rel, worst_order_difference=worst)
                 chk.search_case("scale_variation_two_grids", rel <= 1e-6 and worst <= 1e-6, what=f"{name} degree={deg} x={x:.5g} ({d['position']}) xiF={xiF}: coarse grid {a} vs refined grid {b} (rel {rel:.2e}, worst single order {worst:.2e})", data=d, sample=d if j == 0 and xiF == 2.0 else None, nontrivial=abs(a) > 0)
 
